@@ -8,15 +8,15 @@ From TV Require Import Lib.Obs Lib.C21_Utf8 Lib.C21_Pct C47.Model.
 Local Open Scope N_scope.
 
 (* one request: (tornado.version,
-           (https, xheaders, remote_ip, http/1.1?, method, uri, header lines, body),
+           (https, xheaders, remote_ip, trusted_downstream, getaddrinfo table, http/1.1?, method, uri, header lines, body),
            (start_response args if called, write() calls, returned chunks)) *)
 Definition one_input : Type :=
-  (list N * (bool * bool * list N * bool * list N * list N * list (list N * list N) * list N)
+  (list N * (bool * bool * list N * list (list N) * list (list N * bool) * bool * list N * list N * list (list N * list N) * list N)
    * (option (list N * list (list N * list N)) * list (list N) * list (list N)))%type.
 
 Definition req_of (c : one_input) : request :=
-  let '(_, (https, xh, ip, v11, m, u, hs, b), _) := c in
-  {| r_https := https; r_xheaders := xh; r_remote_ip := ip; r_v11 := v11; r_method := m; r_uri := u;
+  let '(_, (https, xh, ip, tr, gai, v11, m, u, hs, b), _) := c in
+  {| r_https := https; r_xheaders := xh; r_remote_ip := ip; r_trusted := tr; r_gai := gai; r_v11 := v11; r_method := m; r_uri := u;
      r_headers := hs; r_body := b |}.
 Definition app_of (c : one_input) : app_out :=
   let '(_, _, (st, wr, ch)) := c in {| a_start := st; a_written := wr; a_chunks := ch |}.
@@ -47,7 +47,7 @@ Definition run_one (c : one_input) : obs := enc_outcome (serve (ver_of c) (req_o
 
 (* a correspondence case: tornado.version and the requests served, in order, by ONE WSGIContainer *)
 Definition step_input : Type :=
-  ((bool * bool * list N * bool * list N * list N * list (list N * list N) * list N)
+  ((bool * bool * list N * list (list N) * list (list N * bool) * bool * list N * list N * list (list N * list N) * list N)
    * (option (list N * list (list N * list N)) * list (list N) * list (list N)))%type.
 Definition input : Type := (list N * list step_input)%type.
 Definition one_of (ver : list N) (s : step_input) : one_input := (ver, fst s, snd s).
@@ -164,7 +164,7 @@ Definition check_env (r : request) (a : accepted) (e : wenv) : bool :=
   text_eqb (e_method e) (r_method r) &&
   text_eqb (e_path e) (unquote_bytes (q_path a)) &&        (* the percent-decoded path bytes *)
   text_eqb (e_query e) (q_query a) &&
-  text_eqb (e_remote e) (r_remote_ip r) &&
+  text_eqb (e_remote e) (remote_spec r) &&          (* the xheaders remote_ip (C32's model) *)
   text_eqb (e_protocol e) (if r_v11 r then t "HTTP/1.1" else t "HTTP/1.0") &&
   text_eqb (e_scheme e) (if https_spec r then t "https" else t "http") &&
   text_eqb (e_input e) (r_body r) &&
